@@ -112,6 +112,33 @@ theorem queued_above_pending (ac : Account) (a mg : Nat) (h : AcctJ ac a mg) :
   have := h.qAbove q hq
   omega
 
+/-! ## list operations keep the pending run gap-free -/
+
+/-- `promoteTx`: putting the next nonce (or overwriting inside the run) keeps pending gap-free -/
+theorem promote_keeps_gap_free (l : TxList) (n : Nat) (t : Tx) (h : Chain n l.txs)
+    (ht : n ≤ t.nonce ∧ t.nonce ≤ n + l.txs.length) : Chain n (l.put t).txs := (h.insertN t ht).1
+
+/-- `removeTx` on a pending transaction: the strict `Remove` keeps a gap-free prefix (everything above is handed back) -/
+theorem strict_remove_keeps_gap_free (l : TxList) (n : Nat) (t : Tx) (h : Chain n l.txs) :
+    Chain n (l.remove true t).2.2.txs := by
+  unfold TxList.remove
+  split
+  · exact h
+  · simp only [if_true]
+    rw [strict_remove_kept]
+    exact h.filter_lt _
+
+/-- `Forward`: dropping everything below a higher state nonce leaves a run from that nonce -/
+theorem forward_keeps_gap_free (l : List Tx) (n m : Nat) (h : Chain n l) (hm : n ≤ m) : Chain m (forwardN l m).2 :=
+  h.filter_ge m hm
+
+/-- `Cap` (fair truncation of pending) keeps a gap-free prefix -/
+theorem cap_keeps_gap_free (l : TxList) (n k : Nat) (h : Chain n l.txs) : Chain n (l.cap k).2.txs := by
+  unfold TxList.cap
+  split
+  · exact h
+  · exact h.take k
+
 /-! ## demotion after a reset (repaired by 971bb1a) -/
 
 /-- What `demoteUnexecutables` keeps pending after its gap step is gap-free from the state nonce, whatever a reorg
